@@ -199,6 +199,8 @@ def canon(e, rename, depth=0, rewrite=None, pname=None):
     if k == "place":
         return "%s->%s" % (c(e[1]), ".".join(str(p) if isinstance(p, str) else "[%s]" % (c(p[1]) if p[0] == "idx" else str(p[0])) for p in e[2]))
     if k == "local":
+        if len(e) > 2 and isinstance(e[2], tuple) and e[2] and e[2][0] not in ("uninit", "phi", "upd", "cyc", "undef"):
+            return "{%s}" % c(e[2])
         return "local"
     if k == "agg":
         return "%s::%s{%s}" % (rename(e[1]).split("::")[-1], rename(e[2]) if e[2] else e[2], ", ".join("%s: %s" % (n, c(x)) for n, x in e[3]))
